@@ -228,6 +228,18 @@ def step (st : DState) (line : String) : DState × String :=
       let p := (parseStmts prog.toList).1
       (st, s!"{bit (Model.refusesTop dd p)} {bit (Model.hasUnsupportedTop p)} {bit (Model.kindsKnownList dd p)}")
     | none => (st, "bad-request")
+  | ["SPEC", "drawing", top, ns, cs, es] =>
+    let pair (s : String) : Option (Name × Name) := match s.splitOn "@" with
+      | [a, b] => some (a, b)
+      | _ => none
+    let edge (s : String) : Option (Name × Name × Bool) := match s.splitOn ">" with
+      | [a, r] => match r.splitOn ":" with
+        | [b, k] => some (a, b, k == "d")
+        | _ => none
+      | _ => none
+    let dr : Spec.Drawing := { nodes := (lst ns).filterMap pair, clusters := (lst cs).filterMap pair,
+                               edges := (lst es).filterMap edge }
+    (st, bit (Spec.drawingOK st.h top dr))
   | ["IT", "iter", c] => (st, showM (Model.iterAll st.h (st.h.length + 2) c) cj)
   | ["IT", "view", c] => (st, showM (Model.viewIter st.h c) cj)
   | ["S", h, ng] => match parseHier h, parseNg ng with
